@@ -549,7 +549,11 @@ func (r *yieldRewriter) rewriteForStmt(
 	// continue in body skips the rest of body, but not the post
 	continuable := hasContinue(stmt.Body)
 
-	if body.combineRequired() || continuable {
+	// name declared in body must be invisible in post,
+	// which may refer to the same name of outer scope
+	shadowing := declaresAny(stmt.Body)
+
+	if body.combineRequired() || continuable || shadowing {
 		// combine(delay(body), delay(post))
 		// rewriting by seq.Combine avoiding control flow analysis (merging body & post)
 
